@@ -66,6 +66,11 @@ def run():
         if e["e"] == "views":
             e["hadEdits"] = False
     log += _expect("EditScriptTrace", tr, [("had-edits-flag", eq)], prop="C02")
+    pf = copy.deepcopy(tr)
+    for e in pf["ev"]:
+        if e["e"] == "views":
+            e["partsFirst"] += 1
+    log += _expect("EditScriptTrace", tr, [("parts-first-total", pf)], prop="C03")
     # StringScript
     good = {"a": [97, 98], "b": [98], "ev": [{"e": "remove", "i": 1}, {"e": "keep", "i": 2, "j": 1}, {"e": "end"}]}
     b1 = {"a": [97, 98], "b": [98], "ev": [{"e": "remove", "i": 1}, {"e": "remove", "i": 2}, {"e": "insert", "j": 1}, {"e": "end"}]}
@@ -200,6 +205,27 @@ def run():
         if not _driver.replay(bad):
             raise MachineryError("Driver replay does not notice a corrupted end state (%s)" % name)
         log.append("Driver/%s -> drift noticed" % name)
+    # Choose (L2 decision table of edit selection): real observations agree; a changed class / cost / penalty does not
+    from props import _choose
+    cp = _choose.pool()
+    by = {lab: (d, n) for d, n, lab in cp}
+    crecs = []
+    for la, lb in (("1", "2"), ("'a'", "'b'"), ("list[1, 2] ale=True alesl=False", "list[2, 1] ale=True alesl=False"),
+                   ("list[1, ''] ale=True alesl=True", "list[1, 2, 3] ale=True alesl=True"), ("fdict{'k': 1}", "dict{'k': 1} auto=True")):
+        (da, na), (db, nb) = by[la], by[lb]
+        o = _choose.observe(na, nb)
+        crecs.append({"a": da, "b": db, "cls": o["cls"], "cost": o["cost"], "penalty": o["penalty"]})
+    cbad = [dict(crecs[0], cost=0), dict(crecs[1], cls="StringEdit", cost=-1), dict(crecs[2], cls="EditDistance", penalty=0),
+            dict(crecs[3], penalty=0), dict(crecs[4], cls="FixedKeyDictNodeEdit", cost=-1)]
+    cv, _ = tlc.validate_traces("ChooseTrace", crecs + cbad, constants={"Canons": {"c"}}, name="selftest-ChooseTrace")
+    for i in range(1, len(crecs) + 1):
+        if cv[i]["v"] != "ACCEPT":
+            raise MachineryError("ChooseTrace rejects a real observation: %s %s" % (crecs[i - 1], cv[i]))
+    for k, name in enumerate(("unequal-leaves-free", "single-characters-as-string-edit", "list-edits-despite-equal-length-option",
+                              "penalty-dropped", "equal-mappings-not-matched"), len(crecs) + 1):
+        if cv[k]["v"] == "ACCEPT":
+            raise MachineryError("ChooseTrace accepts a corrupted observation (%s)" % name)
+        log.append("ChooseTrace/%s -> %s" % (name, cv[k]["clause"]))
     # Assign
     good = {"table": [[1, 0], [0, 2]], "result": [[1, 2, 0], [2, 1, 0]], "raised": False}
     b1 = {"table": [[1, 0], [0, 2]], "result": [[1, 1, 1], [2, 2, 2]], "raised": False}
